@@ -43,7 +43,7 @@ impl Check for C09 {
         Ok(())
     }
     fn enum_count(&self, tier: Tier) -> u64 {
-        cells() as u64 * tier.pick(60, 2000)
+        cells() as u64 * tier.pick(600, 20000)
     }
     fn run_enum(&self, index: u64, _tier: Tier, obs: &mut Obs) -> Result<(), Fail> {
         let cell = (index % cells() as u64) as usize;
@@ -74,7 +74,7 @@ impl Check for C09 {
     }
     fn rule(&self) -> String {
         format!("instantiation matrix enumerated completely in every run: query dim type {{Ix0..Ix4, IxDyn of rank 0..4}} x data dim type {{Ix1..Ix6, IxDyn of \
-         rank 1..7}} x {{Interp1D-Linear, Interp1D-CubicSpline, Interp2D-Bilinear (data rank >= 2)}} = {} cells, each with 60 (quick) / 2000 \
+         rank 1..7}} x {{Interp1D-Linear, Interp1D-CubicSpline, Interp2D-Bilinear (data rank >= 2)}} = {} cells, each with 600 (quick) / 20000 \
          (thorough) random data sets whose entropy is derived from (seed, index). Axis lengths of queries and trailing data axes include 0; query \
          elements are pairwise distinct. Oracle: result shape == query shape ++ trailing dims; result[idx] bit-identical to interp(q[idx]) for \
          every multi-index; interp_scalar == interp on 1-D/2-D data; interp_into / interp_array_into into a poisoned buffer bit-identical to the \
